@@ -717,23 +717,6 @@ theorem reshapeCore_sorted (x : COO α) (s : List Nat) (hwf : x.WF) (hsize : pro
   unfold SortedLin lin at hs ⊢
   rw [hlin]; exact hs
 
-/-- the 1-D result of the row reduction stores only row numbers of the operand -/
-theorem rowReduce_add_wf (a : COO Int) (R C : Nat) (hshape : a.shape = [R, C]) (hwf : a.WF)
-    (hs : SortedLin a.shape a.entries) (fill : Int) : (rowReduce .add a fill).WF := by
-  have hwf' : ∀ e ∈ a.entries, InB e.1 [R, C] := fun e he => hshape ▸ hwf e he
-  have hs' : SortedLin [R, C] a.entries := hshape ▸ hs
-  rw [rowReduce_add_eq]
-  intro e he
-  simp only [pruneEntries, List.mem_filter, List.mem_map] at he
-  obtain ⟨⟨g, hg, rfl⟩, _⟩ := he
-  obtain ⟨_, s2, _⟩ := groupRuns_spec_aux (· + ·) _ (rowList_sorted a.entries R C hwf' hs')
-  obtain ⟨q, hq, hqg⟩ := List.mem_map.mp ((s2 g.1).mp (List.mem_map.mpr ⟨g, hg, rfl⟩))
-  obtain ⟨e0, he0, rfl⟩ := List.mem_map.mp hq
-  obtain ⟨r, c, hk, hr, _⟩ := InB2 (hwf' e0 he0)
-  simp only [hk, List.getD_cons_zero] at hqg
-  simp only [hshape, List.getD_cons_zero, InB_cons, InB_nil, and_true]
-  omega
-
 end COO
 
 theorem range_mul (d P : Nat) :
@@ -769,5 +752,182 @@ theorem gather_invPerm_getD (p : List Nat) (hnd : p.Nodup) (hlt : ∀ a ∈ p, a
   rw [COO.gather_getD _ _ _ (by simpa [invPerm] using hk)]
   unfold invPerm
   rw [getD_map_range _ _ _ hk, idxOf_getElem_of_nodup p m hm hnd]
+
+namespace COO
+
+theorem rowReduce_shape (op : RedOp) (a : COO Int) (fill : Int) :
+    (rowReduce op a fill).shape = [a.shape.getD 0 0] := by
+  unfold rowReduce
+  cases op.super? <;> rfl
+
+/-- every stored index of the row reduction is `[row]` for a run of `groupRuns` -/
+theorem rowReduce_keys (op : RedOp) (a : COO Int) (fill : Int) :
+    ∀ e ∈ (rowReduce op a fill).entries, ∃ g ∈ groupRuns op.ap (rowList a.entries), e.1 = [g.1] := by
+  intro e he
+  unfold rowReduce at he
+  cases hsup : op.super? with
+  | none =>
+    simp only [hsup, COO.build, pruneEntries, Bool.false_eq_true, if_false, if_true, List.map_map,
+      List.mem_filter, List.mem_map] at he
+    obtain ⟨⟨g, hg, rfl⟩, _⟩ := he
+    exact ⟨g, hg, rfl⟩
+  | some sup =>
+    simp only [hsup, COO.build, pruneEntries, Bool.false_eq_true, if_false, if_true, List.map_map,
+      List.mem_filter, List.mem_map] at he
+    obtain ⟨⟨g, hg, rfl⟩, _⟩ := he
+    exact ⟨g, hg, rfl⟩
+
+/-- the 1-D result of the row reduction stores only row numbers of the operand -/
+theorem rowReduce_wf (op : RedOp) (a : COO Int) (R C : Nat) (hshape : a.shape = [R, C]) (hwf : a.WF)
+    (hs : SortedLin a.shape a.entries) (fill : Int) : (rowReduce op a fill).WF := by
+  have hwf' : ∀ e ∈ a.entries, InB e.1 [R, C] := fun e he => hshape ▸ hwf e he
+  have hs' : SortedLin [R, C] a.entries := hshape ▸ hs
+  intro e he
+  obtain ⟨g, hg, hk⟩ := rowReduce_keys op a fill e he
+  obtain ⟨_, s2, _⟩ := groupRuns_spec_aux op.ap _ (rowList_sorted a.entries R C hwf' hs')
+  obtain ⟨q, hq, hqg⟩ := List.mem_map.mp ((s2 g.1).mp (List.mem_map.mpr ⟨g, hg, rfl⟩))
+  obtain ⟨e0, he0, rfl⟩ := List.mem_map.mp hq
+  obtain ⟨r, c, hk0, hr, _⟩ := InB2 (hwf' e0 he0)
+  simp only [hk0, List.getD_cons_zero] at hqg
+  rw [rowReduce_shape, hk, hshape]
+  simp only [List.getD_cons_zero, InB_cons, InB_nil, and_true]
+  omega
+
+
+/-- **the lift**: `reduceCore op x (some axes) false` for a canonical `x` and distinct in-range axes
+is the row reduction of a canonical 2-D array `A` whose cell `[ravel j, c]` is the operand element
+with kept coordinates `j` and reduced coordinates `unravel c`, reshaped to the kept extents (and
+turned into a scalar when nothing is kept) -/
+theorem reduceCore_lift (op : RedOp) (x : COO Int) (axes : List Nat)
+    (transpose_get : ∀ (y : COO Int) (p : List Nat), p.Perm (List.range y.shape.length) → y.WF →
+      (keysOf y.entries).Nodup → ∀ j, InB j (gather y.shape p) →
+      (y.transposeCore p).get j = y.get (gather j (invPerm p)))
+    (hadm : ¬ (op.ap x.fill x.fill ≠ x.fill ∧ op.super?.isNone))
+    (hwf : x.WF) (hs : SortedLin x.shape x.entries) (hnd : axes.Nodup)
+    (hr : ∀ a ∈ axes, a < x.shape.length) (kept : List Nat)
+    (hkept : ((List.range x.shape.length).filter fun a => !axes.contains a) = kept) :
+    ∃ A out : COO Int,
+      A.shape = [prod (gather x.shape kept), prod (gather x.shape axes)] ∧ A.WF ∧
+      SortedLin A.shape A.entries ∧ A.fill = x.fill ∧
+      (∀ j c, InB j (gather x.shape kept) → c < prod (gather x.shape axes) →
+        A.get [ravel j (gather x.shape kept), c]
+          = x.get (gather (j ++ unravel c (gather x.shape axes)) (invPerm (kept ++ axes)))) ∧
+      COO.reduceCore op x (some axes) false =
+        .ok (if kept = [] then .scalar (out.get []) else .arr out) ∧
+      out.shape = gather x.shape kept ∧ out.fill = (rowReduce op A A.fill).fill ∧
+      ∀ j, InB j (gather x.shape kept) →
+        out.get j = (rowReduce op A A.fill).get [ravel j (gather x.shape kept)] := by
+  rw [reduceCore_eq, if_neg hadm]
+  have gdef : ∀ (s l : List Nat), (l.map fun d => s.getD d 0) = gather s l := fun _ _ => rfl
+  simp only [gdef, Bool.false_eq_true, if_false, hkept]
+  have hperm : (kept ++ axes).Perm (List.range x.shape.length) := hkept ▸ kept_axes_perm _ axes hnd hr
+  have hxnd : (keysOf x.entries).Nodup := keys_nodup_of_sortedLin _ _ hs
+  -- the transposed array
+  obtain ⟨hTs, hTf, hTwf, hTsort⟩ := transposeCore_facts x (kept ++ axes) hperm hwf hs
+  rw [gather_append] at hTs
+  have hTget := transpose_get x (kept ++ axes) hperm hwf hxnd
+  generalize x.transposeCore (kept ++ axes) = T at *
+  -- reshaped to 2-D
+  have hsize : prod T.shape = prod [prod (gather x.shape kept), prod (gather x.shape axes)] := by
+    rw [hTs, prod_append]; simp [prod]
+  obtain ⟨hAs, hAf, hAwf⟩ := reshapeCore_facts T _ hTwf hsize
+  have hAsort := reshapeCore_sorted T _ hTwf hsize hTsort
+  have hAget := fun j hj => (C08.reshape_get T _ hTwf hsize j hj).1
+  generalize T.reshapeCore [prod (gather x.shape kept), prod (gather x.shape axes)] = A at *
+  -- the row reduction
+  have hfill : x.fill = A.fill := by rw [hAf, hTf]
+  have hRs := rowReduce_shape op A A.fill
+  rw [hAs, List.getD_cons_zero] at hRs
+  have hRwf := rowReduce_wf op A _ _ hAs hAwf (hAs ▸ hAsort) A.fill
+  have hRR : rowReduce op A x.fill = rowReduce op A A.fill := by rw [hfill]
+  rw [hRR]
+  generalize hR : rowReduce op A A.fill = R1 at *
+  -- reshaped back
+  have hsize2 : prod R1.shape = prod (gather x.shape kept) := by rw [hRs]; simp [prod]
+  obtain ⟨hOs, hOf, hOwf⟩ := reshapeCore_facts R1 _ hRwf hsize2
+  have hOget := fun j hj => (C08.reshape_get R1 _ hRwf hsize2 j hj).1
+  refine ⟨A, R1.reshapeCore (gather x.shape kept), hAs, hAwf, hAs ▸ hAsort, hfill.symm, ?_, ?_, hOs, hR ▸ hOf, ?_⟩
+  · intro j c hj hc'
+    have hjl : j.length = (gather x.shape kept).length := InB_length hj
+    have hrj : ravel j (gather x.shape kept) < prod (gather x.shape kept) := ravel_lt hj
+    have hu := unravel_InB (gather x.shape axes) c hc'
+    rw [hAget [ravel j (gather x.shape kept), c] (by simp [hrj, hc']), hTs]
+    have hlin : ravel [ravel j (gather x.shape kept), c] [prod (gather x.shape kept), prod (gather x.shape axes)]
+        = ravel (j ++ unravel c (gather x.shape axes)) (gather x.shape kept ++ gather x.shape axes) := by
+      rw [ravel_append j _ hjl, ravel_unravel _ c hc', ravel2]
+    have hin : InB (j ++ unravel c (gather x.shape axes)) (gather x.shape kept ++ gather x.shape axes) :=
+      (InB_append _ _ _ _ hjl).mpr ⟨hj, hu⟩
+    rw [hlin, unravel_ravel hin]
+    exact hTget _ (by rw [gather_append]; exact hin)
+  · have hlen : (R1.reshapeCore (gather x.shape kept)).shape.length = kept.length := by
+      rw [hOs, gather_length]
+    by_cases hk : kept = []
+    · have h0 : (R1.reshapeCore (gather x.shape kept)).shape.length = 0 := by rw [hlen, hk]; rfl
+      rw [if_pos h0, if_pos hk]
+      congr 2
+      -- a 0-d array: every stored index is `[]`
+      have hs0 : (R1.reshapeCore (gather x.shape kept)).shape = [] := by rw [hOs, hk]; rfl
+      unfold COO.get
+      match hes : (R1.reshapeCore (gather x.shape kept)).entries with
+      | [] => simp
+      | e :: rest =>
+        have hin := hOwf e (by rw [hes]; exact List.mem_cons_self)
+        rw [hs0] at hin
+        have : e.1 = [] := by
+          match h : e.1, hin with
+          | [], _ => rfl
+        rw [lookup_cons, if_pos this]
+    · have h0 : ¬ (R1.reshapeCore (gather x.shape kept)).shape.length = 0 := by
+        rw [hlen]; intro h; exact hk (List.length_eq_zero_iff.mp h)
+      rw [if_neg h0, if_neg hk]
+  · intro j hj
+    rw [hOget j hj, hRs, hR]
+    simp [unravel, prod]
+
+end COO
+
+namespace COO
+
+/-- `max`/`min` over arbitrary axes: the lifted form of `rowReduce_sel_get` -/
+theorem reduceCore_sel_get (op : RedOp) (hsup : op.super? = none) (le : Int → Int → Prop)
+    (hsel : ∀ a b, op.ap a b = a ∨ op.ap a b = b) (hl : ∀ a b, le a (op.ap a b)) (hr' : ∀ a b, le b (op.ap a b))
+    (htrans : ∀ a b c, le a b → le b c → le a c) (hrefl : ∀ a, le a a)
+    (hidem : ∀ a, op.ap a a = a)
+    (x : COO Int) (axes : List Nat)
+    (transpose_get : ∀ (y : COO Int) (p : List Nat), p.Perm (List.range y.shape.length) → y.WF →
+      (keysOf y.entries).Nodup → ∀ j, InB j (gather y.shape p) →
+      (y.transposeCore p).get j = y.get (gather j (invPerm p)))
+    (hwf : x.WF) (hs : SortedLin x.shape x.entries) (hnd : axes.Nodup)
+    (hr : ∀ a ∈ axes, a < x.shape.length) (hpos : 0 < prod (gather x.shape axes)) :
+    ∃ out : COO Int,
+      COO.reduceCore op x (some axes) false =
+        .ok (if (List.range x.shape.length).filter (fun a => !axes.contains a) = [] then .scalar (out.get [])
+             else .arr out) ∧
+      out.shape = gather x.shape ((List.range x.shape.length).filter fun a => !axes.contains a) ∧
+      out.fill = x.fill ∧
+      ∀ j, InB j (gather x.shape ((List.range x.shape.length).filter fun a => !axes.contains a)) →
+        (∀ r ∈ allIdx (gather x.shape axes), le (x.get (gather (j ++ r)
+            (invPerm (((List.range x.shape.length).filter fun a => !axes.contains a) ++ axes)))) (out.get j)) ∧
+        ∃ r ∈ allIdx (gather x.shape axes), x.get (gather (j ++ r)
+            (invPerm (((List.range x.shape.length).filter fun a => !axes.contains a) ++ axes))) = out.get j := by
+  obtain ⟨A, out, hAs, hAwf, hAsort, hAf, hAget, hred, hOs, hOf, hOget⟩ :=
+    reduceCore_lift op x axes transpose_get (fun h => h.1 (hidem _)) hwf hs hnd hr _ rfl
+  obtain ⟨_, hRf, hRget⟩ := rowReduce_sel_get op hsup le hsel hl hr' htrans hrefl A _ _ hAs hAwf hAsort hpos
+  refine ⟨out, hred, hOs, by rw [hOf, hRf, hAf], fun j hj => ?_⟩
+  obtain ⟨hb, c, hc, hatt⟩ := hRget (ravel j (gather x.shape _))
+  rw [hOget j hj]
+  constructor
+  · intro r hr
+    rw [allIdx_eq_map_unravel] at hr
+    obtain ⟨c, hc, rfl⟩ := List.mem_map.mp hr
+    have hc' := List.mem_range.mp hc
+    rw [← hAget j c hj hc']
+    exact hb c hc'
+  · refine ⟨unravel c (gather x.shape axes), ?_, ?_⟩
+    · rw [allIdx_eq_map_unravel]
+      exact List.mem_map.mpr ⟨c, List.mem_range.mpr hc, rfl⟩
+    · rw [← hAget j c hj hc]; exact hatt
+
+end COO
 
 end SparseV
